@@ -365,3 +365,50 @@ def rule_wrapper_constants(chk, P, rid, floor=100):
                         kind = 'the architecture\'s (the other functions of %s pass %s)' % (fl.split('/')[-1], maj)
                     r.check(ok, key, ev['loc'], '%s passes %d as argument %d of %s; in this wrapper family that argument is %s' % (
                         f.name, v, ai, ev['e'].get('fn'), kind))
+
+
+# ------------------------------------------------------------------------------------------------------------------------------
+# K1: key-size / direction tokens of C functions and their callees
+
+_KS = re.compile(r'(?<![0-9])(128|192|256)(?![0-9])')
+
+
+def _dirs(name):
+    return {t[:3] for t in re.split(r'_+', name) if t in ('enc', 'dec', 'encrypt', 'decrypt')}
+
+
+def rule_token_agreement(chk, P, rid, floor=150):
+    r = chk.rule(rid, 'a C function named for one AES key size (128/192/256) or one direction (enc/dec) only calls routines named for the same '
+                      'key size / direction (thin per-size wrappers around the assembly kernels: a copy-pasted callee of the sibling size)', floor=floor)
+    seen = set()
+    for tu in P.tus():
+        for f in P.funcs(tu):
+            if (f.name, f.loc) in seen:
+                continue
+            seen.add((f.name, f.loc))
+            ks = set(_KS.findall(f.name))
+            d = _dirs(f.name)
+            for b, i, ev in f.events(('call',)):
+                fn = ev['e'].get('fn')
+                if not fn:
+                    # a call through one of the manager's function pointers: the slot name carries the tokens (gcm192_dec_update)
+                    c = ev['e'].get('callee')
+                    if isinstance(c, dict) and c.get('k') == 'mem' and 'IMB_MGR' in (c.get('rec') or ''):
+                        fn = re.sub(r'([a-z])(128|192|256)', r'\1_\2', c.get('f') or '')
+                if not fn:
+                    continue
+                if 'finalize' in fn and len(d) == 1:
+                    # the GCM tag computation is the same in both directions; decrypt code legitimately uses the enc_finalize slot
+                    d_here = set()
+                else:
+                    d_here = d
+                if len(ks) == 1:
+                    k2 = set(_KS.findall(fn))
+                    if k2:
+                        r.check(k2 == ks, '%s->%s:size' % (f.name, fn), ev['loc'],
+                                '%s (key size %s) calls %s (key size %s)' % (f.name, '/'.join(sorted(ks)), fn, '/'.join(sorted(k2))))
+                if len(d_here) == 1:
+                    d2 = _dirs(fn)
+                    if len(d2) == 1:
+                        r.check(d2 == d, '%s->%s:dir' % (f.name, fn), ev['loc'],
+                                '%s (%s) calls %s (%s)' % (f.name, '/'.join(d), fn, '/'.join(d2)))
